@@ -101,5 +101,25 @@ pub fn c13(args: &Args) {
             }
         }
     }
+    // descending and interleaved lengths (state cached from a previous, different length)
+    let mut order: Vec<usize> = (1..=10).rev().collect();
+    order.extend([3usize, 10, 1, 9, 2, 8, 10, 5]);
+    for w in order {
+        let n = 1usize << w;
+        let a: Vec<i64> = (0..n).map(|_| rng.gen_range(-200..=200)).collect();
+        let b: Vec<i64> = (0..n).map(|_| rng.gen_range(-200..=200)).collect();
+        let (fa, fb) = (lift(&a), lift(&b));
+        out.emit(comp_event("mul", n, &a, &b, guarded(|| verif::cifft(&verif::chadamard_mul(&verif::cfft(&fa), &verif::cfft(&fb)))), "order"));
+        out.emit(comp_event("split", n, &a, &[], guarded(|| {
+            let (s0, s1) = verif::csplit(&verif::cfft(&fa));
+            let mut v = verif::cifft(&s0);
+            v.extend(verif::cifft(&s1));
+            v
+        }), "order"));
+        out.emit(comp_event("mergesplit", n, &a, &[], guarded(|| {
+            let (s0, s1) = verif::csplit(&verif::cfft(&fa));
+            verif::cifft(&verif::cmerge(&s0, &s1))
+        }), "order"));
+    }
     println!("events {}", out.finish());
 }
